@@ -172,6 +172,7 @@ func genProgram(r *Rng, group bool) *World {
 			hid++
 			op.HID = hid
 			op.MW = tags("R")
+			op.B = r.Pct(60) // use Get/Post/.../Any instead of Handle where one exists for the method list
 		}
 		// model bookkeeping at generation time (only to keep registrations valid)
 		switch op.K {
@@ -286,13 +287,69 @@ func (p *progRun) step(op *Op) (pan string) {
 		verdict, _ := p.m.HandleVerdict(full, op.Methods)
 		h := e.Handler(op.HID, nil)
 		f := p.ps.fac[op.Via]
+		short := ""
+		if op.B && !p.desugar {
+			switch {
+			case len(op.Methods) == 0:
+				short = "ANY"
+			case len(op.Methods) == 1 && contains([]string{"GET", "POST", "DELETE", "PUT", "PATCH"}, op.Methods[0]):
+				short = op.Methods[0]
+			}
+		}
 		switch {
-		case p.desugar || f == nil:
+		case p.desugar:
 			r.Handle(full, h, e.MWs(flat...), op.Methods...)
+		case f == nil:
+			switch short {
+			case "GET":
+				r.Get(full, h, e.MWs(flat...)...)
+			case "POST":
+				r.Post(full, h, e.MWs(flat...)...)
+			case "DELETE":
+				r.Delete(full, h, e.MWs(flat...)...)
+			case "PUT":
+				r.Put(full, h, e.MWs(flat...)...)
+			case "PATCH":
+				r.Patch(full, h, e.MWs(flat...)...)
+			case "ANY":
+				r.Any(full, h, e.MWs(flat...)...)
+			default:
+				r.Handle(full, h, e.MWs(flat...), op.Methods...)
+			}
 		case f.isRes:
-			f.res.Handle(h, e.MWs(op.MW...), op.Methods...)
+			switch short {
+			case "GET":
+				f.res.Get(h, e.MWs(op.MW...)...)
+			case "POST":
+				f.res.Post(h, e.MWs(op.MW...)...)
+			case "DELETE":
+				f.res.Delete(h, e.MWs(op.MW...)...)
+			case "PUT":
+				f.res.Put(h, e.MWs(op.MW...)...)
+			case "PATCH":
+				f.res.Patch(h, e.MWs(op.MW...)...)
+			case "ANY":
+				f.res.Any(h, e.MWs(op.MW...)...)
+			default:
+				f.res.Handle(h, e.MWs(op.MW...), op.Methods...)
+			}
 		default:
-			f.prefix.Handle(op.Pattern, h, e.MWs(op.MW...), op.Methods...)
+			switch short {
+			case "GET":
+				f.prefix.Get(op.Pattern, h, e.MWs(op.MW...)...)
+			case "POST":
+				f.prefix.Post(op.Pattern, h, e.MWs(op.MW...)...)
+			case "DELETE":
+				f.prefix.Delete(op.Pattern, h, e.MWs(op.MW...)...)
+			case "PUT":
+				f.prefix.Put(op.Pattern, h, e.MWs(op.MW...)...)
+			case "PATCH":
+				f.prefix.Patch(op.Pattern, h, e.MWs(op.MW...)...)
+			case "ANY":
+				f.prefix.Any(op.Pattern, h, e.MWs(op.MW...)...)
+			default:
+				f.prefix.Handle(op.Pattern, h, e.MWs(op.MW...), op.Methods...)
+			}
 		}
 		if verdict >= 0 {
 			p.m.Handle(full, op.HID, flat, op.Methods)
